@@ -204,6 +204,10 @@ def stmt(s) -> str:
         return "(.assertS %s)" % expr(s.test)
     if isinstance(s, ast.Pass):
         return ".pass"
+    if isinstance(s, ast.Continue):
+        return ".continueS"
+    if isinstance(s, ast.Break):
+        return ".breakS"
     return "(.other %s)" % _q(ast.unparse(s))
 
 
